@@ -98,6 +98,53 @@ func emitC18Callers(t *tr) {
 	}
 }
 
+// FileStorage.Delete: `err := os.RemoveAll(s.Filename(key))` (recursive: the key and everything below it -- the
+// model's [remove]); a missing key is not an error (`return nil // nothing to delete`: [do_delete] of an absent
+// key succeeds without effect)
+func init() { items = append(items, emitC18FsDelete) }
+
+func emitC18FsDelete(t *tr) {
+	fd := t.funcs["FileStorage.Delete"]
+	if fd == nil || fd.Body == nil || len(fd.Body.List) < 2 {
+		t.errf("C18: FileStorage.Delete not found")
+		return
+	}
+	fn, arg := "", ""
+	if as, ok := fd.Body.List[0].(*ast.AssignStmt); ok && len(as.Rhs) == 1 {
+		if ce, ok := as.Rhs[0].(*ast.CallExpr); ok && len(ce.Args) == 1 {
+			if in, ok := ce.Args[0].(*ast.CallExpr); ok && len(in.Args) == 1 {
+				fn, arg = exprStr(ce.Fun), exprStr(in.Fun)+"("+exprStr(in.Args[0])+")"
+			}
+		}
+	}
+	if fn == "" {
+		t.errf("C18: FileStorage.Delete: expected `err := <remover>(s.Filename(key))` as first statement")
+		return
+	}
+	t.p("\n(* C18: FileStorage.Delete (filestorage.go) *)\n")
+	t.p("Definition clean_fs_delete_fn : str := %s. (* %s(%s) *)\n", coqStr(fn), fn, arg)
+	t.p("Definition clean_fs_delete_arg : str := %s.\n", coqStr(arg))
+	// `if errors.Is(keyNotExist(err), fs.ErrNotExist) { return nil }`
+	missingOK := false
+	for _, st := range fd.Body.List[1:] {
+		mentions := false
+		if is, ok := st.(*ast.IfStmt); ok {
+			ast.Inspect(is.Cond, func(x ast.Node) bool {
+				if se, ok := x.(*ast.SelectorExpr); ok && se.Sel.Name == "ErrNotExist" {
+					mentions = true
+				}
+				return true
+			})
+		}
+		if is, ok := st.(*ast.IfStmt); ok && mentions && len(is.Body.List) == 1 {
+			if rs, ok := is.Body.List[0].(*ast.ReturnStmt); ok && len(rs.Results) == 1 && exprStr(rs.Results[0]) == "nil" {
+				missingOK = true
+			}
+		}
+	}
+	t.p("Definition clean_fs_delete_missing_ok : bool := %v.\n", missingOK)
+}
+
 func itoa(n int) string {
 	if n == 0 {
 		return "0"
